@@ -111,61 +111,61 @@ theorem spec_maildirOpenDst {fid0 : Nat} {c0 : Bytes} {w0 : World} (path : Bytes
 /-! ## maildir_move -/
 
 theorem all_maildirMove (env : PEnv) (src dst : Maildir) (ms : MsgSt) :
-    All (fun r => r.1.fd = ms.fd ∧ r.1.msg = ms.msg) (maildirMove env src dst ms) := by
+    All (fun r => r.1.fd = ms.fd ∧ r.1.msg = ms.msg ∧ r.1.parts = ms.parts) (maildirMove env src dst ms) := by
   unfold maildirMove gennameStart
   simp only [bind_eq, pure_eq, call_bind]
   split
-  · exact ⟨rfl, rfl⟩
+  · exact ⟨rfl, rfl, rfl⟩
   split
   rotate_left
-  · exact ⟨rfl, rfl⟩
+  · exact ⟨rfl, rfl, rfl⟩
   refine All.bind_of_forall _ ?_
   intro mt
   split
-  · exact ⟨rfl, rfl⟩
+  · exact ⟨rfl, rfl, rfl⟩
   refine All.bind_of_forall _ ?_
   intro g
   split
-  · exact ⟨rfl, rfl⟩
+  · exact ⟨rfl, rfl, rfl⟩
   intro r
-  refine All.bind_mono (R := fun a => a.2.fd = ms.fd ∧ a.2.msg = ms.msg) ?_ ?_
+  refine All.bind_mono (R := fun a => a.2.fd = ms.fd ∧ a.2.msg = ms.msg ∧ a.2.parts = ms.parts) ?_ ?_
   · split
     · split
       · refine All.bind_of_forall _ ?_
         intro we
         split
-        · exact ⟨rfl, rfl⟩
+        · exact ⟨rfl, rfl, rfl⟩
         · refine All.bind_of_forall _ ?_
           intro ue
-          cases ue <;> exact ⟨rfl, rfl⟩
-      · exact ⟨rfl, rfl⟩
-    · exact ⟨rfl, rfl⟩
-  · rintro ⟨err1, ms1⟩ ⟨h1, h2⟩
-    dsimp only at h1 h2 ⊢
+          cases ue <;> exact ⟨rfl, rfl, rfl⟩
+      · exact ⟨rfl, rfl, rfl⟩
+    · exact ⟨rfl, rfl, rfl⟩
+  · rintro ⟨err1, ms1⟩ ⟨h1, h2, h3⟩
+    dsimp only at h1 h2 h3 ⊢
     split
     · refine All.bind_of_forall _ ?_
       intro _ rc
       refine All.bind_of_forall _ ?_
       intro err2
       split
-      · exact ⟨h1, h2⟩
+      · exact ⟨h1, h2, h3⟩
       · unfold messageSetFileMoved
         split
-        · exact ⟨h1, h2⟩
+        · exact ⟨h1, h2, h3⟩
         split
-        · exact ⟨h1, h2⟩
-        · exact ⟨h1, h2⟩
+        · exact ⟨h1, h2, h3⟩
+        · exact ⟨h1, h2, h3⟩
     · intro rc
       refine All.bind_of_forall _ ?_
       intro err2
       split
-      · exact ⟨h1, h2⟩
+      · exact ⟨h1, h2, h3⟩
       · unfold messageSetFileMoved
         split
-        · exact ⟨h1, h2⟩
+        · exact ⟨h1, h2, h3⟩
         split
-        · exact ⟨h1, h2⟩
-        · exact ⟨h1, h2⟩
+        · exact ⟨h1, h2, h3⟩
+        · exact ⟨h1, h2, h3⟩
 
 theorem spec_maildirMove (env : PEnv) (src dst : Maildir) (ms : MsgSt) {fid0 : Nat} {c0 : Bytes} {w0 w : World}
     (fr : Frm fid0 c0 w0 w) :
